@@ -19,7 +19,8 @@ TECHNIQUE = "BMC from reset on the netlist of the real measurer against a queue 
 BOUNDS = {
     "quick": "FIFO / Wide (start/stop counts <= 2) / Tagged measurers, slots 2 (Wide also 3 -> rounded to 4), max_latency 7 and 3 (wrap-around of the epoch "
              "counter inside the bound), ways 1..2, BMC 8 cycles, all start/stop call histories obeying the documented usage",
-    "thorough": "slots 1..4, max_latency in {2, 3, 5, 7}, ways 1..2 (3 for the FIFO kind), Wide start/stop counts (1,1), (2,2), (2,1), (1,2), BMC 11 cycles",
+    "thorough": "slots 1..4, max_latency in {2, 3, 5, 7}, ways 1..2 (3 for the FIFO kind), BMC 11 cycles; Wide start/stop counts (1,1) BMC 11, "
+                "(2,2), (2,1), (1,2) BMC 9 with 2 slots and BMC 8 with 3..4 slots (solver time grows ~4x per cycle there)",
 }
 OUTSIDE = ["latencies above max_latency (documented overflow): only the presence of the sample is checked, not its value",
            "misuse: stop of more events than pending (Wide), start of a taken slot / stop of a free slot / two ways using the same slot in one cycle (Tagged)",
@@ -61,7 +62,9 @@ def configs(tier, seed):
                     for ways in (1, 2):
                         if ways == 2 and (ml == 3 or slots == 3):
                             continue
-                        out.append(dict(kind="wide", slots=slots, max_latency=ml, ways=ways, start_count=sc, stop_count=pc, K=K))
+                        # two-column WideFifo: the unrolling gets ~4x harder per cycle, bound chosen so that no query times out
+                        k = 11 if max(sc, pc) == 1 else (9 if slots == 2 else 8)
+                        out.append(dict(kind="wide", slots=slots, max_latency=ml, ways=ways, start_count=sc, stop_count=pc, K=k))
     return out
 
 
@@ -104,54 +107,53 @@ def _lat_ob(o, j, t, start_cycle, ml, label):
     return (label, z3.Implies(z3.ULE(lat, ml), zx(o.sig(f"add{j}_sample"), W) == lat))
 
 
-def _step_fifo(cfg):
+def _step_fifo(cfg, k):
+    """Reference for way k of a FIFO-kind measurer (every way owns its FIFO; the other ways stay unconstrained in the query)."""
     cap, msc, mpc = _params(cfg)
-    ways, ml = cfg["ways"], cfg["max_latency"]
+    ml = cfg["max_latency"]
     wide = cfg["kind"] == "wide"
 
     def step(st, o, t):
-        ob, asm, wit, st2 = [], [], {}, []
-        for k in range(ways):
-            q, cnt = st[k]
-            sd, pd = o.done(f"start{k}"), o.done(f"stop{k}")
-            if wide:
-                sc, pc = zx(o.arg(f"start{k}", "count"), W), zx(o.arg(f"stop{k}", "count"), W)
-                asm.append(z3.ULE(sc, msc))
-                asm.append(z3.Implies(o.en(f"stop{k}"), z3.ULE(pc, cnt)))
-                asm.append(z3.ULE(pc, mpc))
-            else:
-                sc = pc = z3.BitVecVal(1, W)
-            popped = z3.If(pd, pc, z3.BitVecVal(0, W))
-            pushed = z3.If(sd, sc, z3.BitVecVal(0, W))
-            ob.append((f"way {k}: stop is blocked when no event is pending", z3.Implies(z3.And(pd, pc != 0), z3.UGE(cnt, pc))))
-            ob.append((f"way {k}: start is blocked when the slots do not suffice", z3.Implies(sd, z3.ULE(cnt - popped + pushed, cap))))
-            ob.append((f"way {k}: start/stop run only when called", z3.And(z3.Implies(sd, o.en(f"start{k}")), z3.Implies(pd, o.en(f"stop{k}")))))
-            for i in range(mpc):
-                j = k * mpc + i
-                fin = z3.And(pd, z3.UGT(pc, i))
-                ob.append((f"way {k}: histogram way {j} adds a sample exactly when stop finishes its event number {i}", (o.sig(f"add{j}_run") == 1) == fin))
-                lab, c = _lat_ob(o, j, t, q[i], ml, f"way {k}: sample {i} = cycles between start and stop of the {i}-th oldest pending event")
-                ob.append((lab, z3.Implies(fin, c)))
-            # pop then push (positions >= count are don't-cares)
-            q1 = [sel(q + [q[-1]] * mpc, popped + i) for i in range(cap)]
-            c1 = cnt - popped
-            now = z3.BitVecVal(t, W)
-            q2 = [z3.If(z3.And(z3.UGE(z3.BitVecVal(i, W), c1), z3.ULT(z3.BitVecVal(i, W), c1 + pushed)), now, q1[i]) for i in range(cap)]
-            st2.append((q2, c1 + pushed))
-            if k == 0:
-                wit["all slots of way 0 taken"] = cnt == cap
-                wit["start and stop of way 0 in the same cycle"] = z3.And(sd, pd, sc != 0, pc != 0)
-                wit["latency of exactly max_latency measured"] = z3.And(pd, pc != 0, z3.BitVecVal(t, W) - q[0] == ml)
-                if ml < cfg["K"] - 1:
-                    wit["latency above max_latency occurs (outside the claim)"] = z3.And(pd, pc != 0, z3.UGT(z3.BitVecVal(t, W) - q[0], ml))
-                wit["start called but blocked"] = z3.And(o.en("start0"), z3.Not(sd))
-                if mpc > 1:
-                    wit["two events finished by one stop"] = z3.And(pd, pc == 2)
-                if msc > 1:
-                    wit["two events started by one start"] = z3.And(sd, sc == 2)
-            if k == 1:
-                wit["both ways finish an event in the same cycle"] = z3.And(pd, pc != 0, o.done("stop0"))
-        return ob, asm, st2, wit
+        # times[n] = start cycle of the n-th event ever started on this way; head / tail = events finished / started so far
+        times, head, tail = st
+        ob, asm, wit = [], [], {}
+        now = z3.BitVecVal(t, W)
+        cnt = tail - head
+        sd, pd = o.done(f"start{k}"), o.done(f"stop{k}")
+        if wide:
+            sc, pc = zx(o.arg(f"start{k}", "count"), W), zx(o.arg(f"stop{k}", "count"), W)
+            asm += [z3.ULE(sc, msc), z3.ULE(pc, mpc), z3.Implies(o.en(f"stop{k}"), z3.ULE(pc, cnt))]
+        else:
+            sc = pc = z3.BitVecVal(1, W)
+        popped = z3.If(pd, pc, z3.BitVecVal(0, W))
+        pushed = z3.If(sd, sc, z3.BitVecVal(0, W))
+        ob.append((f"way {k}: stop is blocked when no event is pending", z3.Implies(z3.And(pd, pc != 0), z3.UGE(cnt, pc))))
+        ob.append((f"way {k}: start is blocked when the slots do not suffice", z3.Implies(sd, z3.ULE(cnt - popped + pushed, cap))))
+        ob.append((f"way {k}: start/stop run only when called", z3.And(z3.Implies(sd, o.en(f"start{k}")), z3.Implies(pd, o.en(f"stop{k}")))))
+        oldest = sel(times, head)
+        for i in range(mpc):
+            j = k * mpc + i
+            fin = z3.And(pd, z3.UGT(pc, i))
+            ob.append((f"way {k}: histogram way {j} adds a sample exactly when stop finishes its event number {i}", (o.sig(f"add{j}_run") == 1) == fin))
+            lab, c = _lat_ob(o, j, t, oldest if i == 0 else sel(times, head + i), ml,
+                             f"way {k}: sample {i} = cycles between start and stop of the {i}-th oldest pending event")
+            ob.append((lab, z3.Implies(fin, c)))
+        times2 = [z3.If(z3.And(sd, z3.UGE(z3.BitVecVal(n, W), tail), z3.ULT(z3.BitVecVal(n, W), tail + sc)), now, times[n]) if n < (t + 1) * msc else times[n]
+                  for n in range(len(times))]
+        wit["all slots taken"] = cnt == cap
+        if cap > 1:
+            wit["start and stop in the same cycle"] = z3.And(sd, pd, sc != 0, pc != 0)
+        wit["latency of exactly max_latency measured"] = z3.And(pd, pc != 0, now - oldest == ml)
+        if ml < cfg["K"] - 1:
+            wit["latency above max_latency occurs (outside the claim)"] = z3.And(pd, pc != 0, z3.UGT(now - oldest, ml))
+        wit["start called but blocked"] = z3.And(o.en(f"start{k}"), z3.Not(sd))
+        if mpc > 1:
+            wit["two events finished by one stop"] = z3.And(pd, pc == 2)
+        if msc > 1:
+            wit["two events started by one start"] = z3.And(sd, sc == 2)
+        if k >= 1:
+            wit["this way and way 0 finish an event in the same cycle"] = z3.And(pd, pc != 0, o.done("stop0"))
+        return ob, asm, (times2, head + popped, tail + pushed), wit
 
     return step
 
@@ -187,7 +189,8 @@ def _step_tagged(cfg):
             taken2.append(z3.Or(started, z3.And(taken[s], z3.Not(stopped))))
             since2.append(z3.If(started, now, since[s]))
         wit["all slots taken"] = z3.And(*taken)
-        wit["a start and a stop in the same cycle"] = z3.And(sd[0], pd[-1])
+        if slots > 1:
+            wit["a start and a stop in the same cycle"] = z3.And(sd[0], pd[-1])
         wit["latency of exactly max_latency measured"] = z3.And(pd[0], now - sel(since, ps[0]) == ml)
         if ml < cfg["K"] - 1:
             wit["latency above max_latency occurs (outside the claim)"] = z3.And(pd[0], z3.UGT(now - sel(since, ps[0]), ml))
@@ -214,8 +217,10 @@ def run(cfg, ctx):
         cap, msc, mpc = _params(cfg)
         cls = "FIFOLatencyMeasurer" if cfg["kind"] == "fifo" else f"WideFIFOLatencyMeasurer start<={msc} stop<={mpc}"
         name = f"{cls} slots={cfg['slots']} max_latency={cfg['max_latency']} ways={cfg['ways']}"
-        init = lambda h: [([zero] * cap, zero) for _ in range(cfg["ways"])]
-        step = _step_fifo(cfg)
+        for k in range(cfg["ways"]):
+            init = lambda h: ([zero] * (cfg["K"] * msc), zero, zero)
+            bmc(ctx, f"{name}, way {k}", b, cfg["K"], _step_fifo(cfg, k), init, cosim_k=12 if ctx.index < 4 and k == 0 else 0)
+        return
     bmc(ctx, name, b, cfg["K"], step, init, cosim_k=12 if ctx.index < 4 else 0)
 
 
